@@ -47,7 +47,8 @@ fn main() {
         Some("race") => {
             let n: usize = get("n", "10").parse().unwrap();
             let mt: usize = get("maxthreads", "4").parse().unwrap();
-            let lines = opencells::run_races(seed, n, mt);
+            let mn: usize = get("minthreads", "2").parse().unwrap();
+            let lines = opencells::run_races(seed, n, mn.min(mt), mt);
             write_trace(&out, opencells::meta(mt, &["p1", "p2"], 4, &dev_flags()), lines);
         }
         Some("poison") => {
